@@ -19,9 +19,14 @@ class _State:
     now = DEFAULT_NOW
     uuid_counter = 0
     installed = False
+    tick = False
 
 
 def _fake_time():
+    if _State.tick:
+        # a clock that moves: every reading is 0.37 s later than the one before (two readings taken
+        # "at the same time" by the library differ, and every third pair straddles a second)
+        _State.now += 0.37
     return _State.now
 
 
@@ -38,6 +43,8 @@ def install(tz='UTC'):
     time.time = _fake_time
     uuid.uuid4 = _fake_uuid4
     _State.installed = True
+    _State.tick = False
+    _State.now = DEFAULT_NOW
     reset(0)
 
 
@@ -49,6 +56,12 @@ def uninstall():
 
 def set_now(t):
     _State.now = float(t)
+
+
+def set_tick(on, now=None):
+    """Moving clock on/off (checks that compare bytes across runs keep it off)."""
+    _State.tick = bool(on)
+    _State.now = DEFAULT_NOW if now is None else float(now)
 
 
 def reset(op_index=0, base=12345):
